@@ -7,6 +7,8 @@ import (
 	"go/types"
 	"strings"
 
+	"golang.org/x/tools/go/cfg"
+
 	"verif/sa/core"
 )
 
@@ -17,99 +19,319 @@ const (
 	codegenBefore  = "internal/runtime/compiler/codegen.(*codegen).VisitBefore"
 )
 
-// bucketIncs finds statements incrementing X.Buckets[i].Count in g.
-func bucketIncs(g *core.Graph) []core.Hit {
-	return g.Find(func(n ast.Node) bool {
-		var target ast.Expr
-		switch s := n.(type) {
-		case *ast.IncDecStmt:
-			if s.Tok == token.INC {
-				target = s.X
+// c21Named reports whether t (pointers stripped) is the named type pkg.name
+// with pkg relative to the module.
+func c21Named(t types.Type, pkg, name string) bool {
+	if t == nil {
+		return false
+	}
+	if p, ok := t.(*types.Pointer); ok {
+		t = p.Elem()
+	}
+	n, ok := t.(*types.Named)
+	return ok && n.Obj().Name() == name && n.Obj().Pkg() != nil && core.Rel(n.Obj().Pkg().Path()) == pkg
+}
+
+// c21Inc is an increment of the Count field of a datum.BucketCount.
+type c21Inc struct {
+	hit    core.Hit
+	elem   ast.Expr // the bucket expression X in X.Count
+	list   ast.Expr // L in L[i] (nil if the bucket is not an element of a slice)
+	idx    ast.Expr // i
+	isCopy bool     // the bucket is the value variable of a range loop: a copy is incremented
+}
+
+// c21IncTarget returns the expression incremented by exactly one by the statement, or nil.
+func c21IncTarget(info *types.Info, n ast.Node) ast.Expr {
+	switch s := n.(type) {
+	case *ast.IncDecStmt:
+		if s.Tok == token.INC {
+			return s.X
+		}
+	case *ast.AssignStmt:
+		if len(s.Lhs) != 1 || len(s.Rhs) != 1 {
+			return nil
+		}
+		one := func(e ast.Expr) bool { v, ok := constInt(info, e); return ok && v == 1 }
+		switch s.Tok {
+		case token.ADD_ASSIGN:
+			if one(s.Rhs[0]) {
+				return s.Lhs[0]
 			}
-		case *ast.AssignStmt:
-			if s.Tok == token.ADD_ASSIGN && len(s.Lhs) == 1 {
-				target = s.Lhs[0]
+		case token.ASSIGN: // x = x + 1, x = 1 + x
+			if be, ok := core.Unparen(s.Rhs[0]).(*ast.BinaryExpr); ok && be.Op == token.ADD {
+				if (hbSameExpr(info, be.X, s.Lhs[0]) && one(be.Y)) || (hbSameExpr(info, be.Y, s.Lhs[0]) && one(be.X)) {
+					return s.Lhs[0]
+				}
 			}
 		}
-		if target == nil {
+	}
+	return nil
+}
+
+// c21AddTarget returns (target, addend) for `t += e`, `t = t + e`, `t = e + t`.
+func c21AddTarget(info *types.Info, n ast.Node) (ast.Expr, ast.Expr) {
+	s, ok := n.(*ast.AssignStmt)
+	if !ok || len(s.Lhs) != 1 || len(s.Rhs) != 1 {
+		return nil, nil
+	}
+	switch s.Tok {
+	case token.ADD_ASSIGN:
+		return s.Lhs[0], s.Rhs[0]
+	case token.ASSIGN:
+		if be, ok := core.Unparen(s.Rhs[0]).(*ast.BinaryExpr); ok && be.Op == token.ADD {
+			if hbSameExpr(info, be.X, s.Lhs[0]) {
+				return s.Lhs[0], be.Y
+			}
+			if hbSameExpr(info, be.Y, s.Lhs[0]) {
+				return s.Lhs[0], be.X
+			}
+		}
+	}
+	return nil, nil
+}
+
+// c21BucketIncs finds the statements of f that increment the Count of a datum.BucketCount.
+func c21BucketIncs(f *core.Func) []c21Inc {
+	info := f.Info()
+	var out []c21Inc
+	for _, h := range f.Graph().Find(func(n ast.Node) bool {
+		t := c21IncTarget(info, n)
+		if t == nil {
 			return false
 		}
-		sel, ok := core.Unparen(target).(*ast.SelectorExpr)
-		if !ok || sel.Sel.Name != "Count" {
-			return false
+		fv, base := hbFieldOf(info, t)
+		return fv != nil && fv.Name() == "Count" && c21Named(info.TypeOf(base), "internal/metrics/datum", "BucketCount")
+	}) {
+		_, base := hbFieldOf(info, c21IncTarget(info, h.N))
+		inc := c21Inc{hit: h, elem: base}
+		e := core.Unparen(base)
+		if id, ok := e.(*ast.Ident); ok {
+			if def := hbSingleDef(f, identObj(info, id)); def != nil {
+				d := core.Unparen(def)
+				if u, ok := d.(*ast.UnaryExpr); ok && u.Op == token.AND {
+					e = core.Unparen(u.X) // p := &L[i]
+				} else if _, isPtr := info.TypeOf(id).(*types.Pointer); !isPtr {
+					inc.isCopy = true // b := L[i] by value
+				}
+			} else if _, isPtr := info.TypeOf(id).(*types.Pointer); !isPtr {
+				inc.isCopy = true // range value variable (or another by-value local)
+			}
 		}
-		_, isIdx := core.Unparen(sel.X).(*ast.IndexExpr)
-		return isIdx
-	})
+		if ix, ok := e.(*ast.IndexExpr); ok {
+			inc.list, inc.idx = ix.X, ix.Index
+		}
+		out = append(out, inc)
+	}
+	return out
 }
 
 func c21(c *core.Check) {
-	c.Explain = "Decides structural necessary conditions of C21: (R1) in Buckets.Observe no path increments more than one bucket, every increment is selected by the ordered first-match scan `v <= upper bound` (inclusive) over the datum's own bucket list or by a range test with exclusive lower and inclusive upper edge, and a catch-all sends a value matched by no bound (above all bounds, NaN) to the last bucket; (R2) count and sum are updated exactly once on every path, under the datum's lock; (R3) in the code generator every declared boundary becomes an exported upper bound exactly once, followed by one +Inf bucket; (R4) the sortedness test dominates every boundary it admits; (R5) every histogram datum owns its bucket counters (no slice sharing between label sets); (R6) the Prometheus histogram sample takes count, sum and cumulative buckets from the same datum, and the cumulative map is a prefix sum over sorted bounds. Arithmetic on the values themselves is not decided."
-	c.Assume = append(c.Assume, "bucket lists are the contiguous sorted ranges built by the code generator (checked in R3/R4)")
+	c.Explain = "Decides structural necessary conditions of C21: (R1) in Buckets.Observe no path increments more than one bucket, every increment is selected by the ordered first-match scan `v <= upper bound` (inclusive) over the datum's own bucket list or by a range test with exclusive lower and inclusive upper edge, and a catch-all sends a value matched by no bound (above all bounds, NaN) to the last bucket; (R2) count and sum are updated exactly once on every path, under the datum's lock; (R3) in the code generator every declared boundary becomes an exported upper bound exactly once, followed by one +Inf bucket; (R4) the sortedness test dominates every boundary it admits; (R5) every histogram datum owns its bucket counters (no slice sharing between label sets); (R6) the Prometheus histogram sample takes count, sum and cumulative buckets from the same datum, and the cumulative map is a prefix sum over sorted bounds. Guards are recognised through the CFG edges they label (split or merged conditions, either operand order, range or index loop, element by index / pointer / value variable, single-assignment locals). Arithmetic on the values themselves is not decided."
+	c.Assume = append(c.Assume, "bucket lists are the contiguous sorted ranges built by the code generator (checked in R3/R4)",
+		"a local variable with exactly one definition keeps the value of its defining expression; a slice local defined from the datum's bucket list shares its elements")
 	f := c.MustFn("C21-R1", bucketsObserve)
 	if f == nil {
 		return
 	}
-	g := f.Graph()
-	recv := recvIdent(f)
-	vObj := paramObj(f, f.Type.Params.List[0].Names[0].Name)
-	incs := bucketIncs(g)
+	c21Observe(c, f)
+	c21Codegen(c)
+	c21Own(c)
+	c21Export(c)
+}
 
-	c.Rule("C21-R1", "ONE-BUCKET: (a) the number of bucket-count increments on any path through Observe is at most one; (b) each increment is either inside `for i := range d.Buckets` guarded by `v <= d.Buckets[i].Range.Max` (or the range value's), followed by leaving the loop, or guarded by a range test with `>` on Min and `<=` on Max; (c) a catch-all exists: the scan's guard has the disjunct `i == len(d.Buckets)-1`, or an increment of the last bucket follows the loop when nothing matched")
-	ctr := g.Count(nil, core.HitPoints(incs), nil)
-	worst := core.Cnt{}
-	for _, e := range normalExits(g) {
-		if n, ok := ctr.At(e.P); ok && n.Max > worst.Max {
-			worst = n
+func c21Observe(c *core.Check, f *core.Func) {
+	g := f.Graph()
+	info := f.Info()
+	recv := hbRecv(f)
+	var vObj types.Object
+	if objs, _ := hbParamsWhere(f, func(t types.Type) bool { b, ok := t.(*types.Basic); return ok && b.Kind() == types.Float64 }); len(objs) == 1 {
+		vObj = objs[0]
+	}
+	if recv == nil || vObj == nil {
+		c.Undecided("C21-R1", bucketsObserve, pos(c, f.Decl), "receiver or the float64 value parameter of Observe not found")
+		return
+	}
+	// the datum's own bucket list: recv.<field of type []BucketCount>, possibly through a single-definition alias
+	isList := func(e ast.Expr) bool {
+		fv, base := hbFieldOf(info, hbResolve(f, e))
+		if fv == nil || identObj(info, base) != recv {
+			return false
+		}
+		sl, ok := fv.Type().Underlying().(*types.Slice)
+		return ok && c21Named(sl.Elem(), "internal/metrics/datum", "BucketCount")
+	}
+	incs := c21BucketIncs(f)
+	var incPts []core.Point
+	for _, in := range incs {
+		incPts = append(incPts, in.hit.P)
+	}
+
+	c.Rule("C21-R1", "ONE-BUCKET: (a) the number of bucket-count increments on any path through Observe is at most one; (b) each increment inside the scan over the datum's bucket list (range or index loop) increments the scanned element itself, is reachable within an iteration only over a branch edge implying `v <= element.Range.Max` (inclusive) or `the index is the last one`, and is followed by leaving the loop; an increment outside the scan is the last bucket after an unmatched scan or is guarded by a range test with `>` on Min and `<=` on Max; (c) a catch-all exists: in the last iteration an increment cannot be avoided, or an increment of the last bucket follows the loop when nothing matched")
+	// "at most one" = no increment is reachable from an increment.  A boolean local that is
+	// only ever set to true, and is set in the block of the first increment, excludes the
+	// edges that imply it is false on the way to the second (`matched = true … if !matched`).
+	setTrueFlags := func(b *cfg.Block) []types.Object {
+		var out []types.Object
+		for _, nd := range b.Nodes {
+			as, ok := nd.(*ast.AssignStmt)
+			if !ok || as.Tok != token.ASSIGN || len(as.Lhs) != 1 || len(as.Rhs) != 1 {
+				continue
+			}
+			if v, isC := constBool(info, as.Rhs[0]); !isC || !v {
+				continue
+			}
+			o := identObj(info, as.Lhs[0])
+			if o == nil {
+				continue
+			}
+			// every other assignment to the flag is its initialisation to false or another `= true`
+			clean := true
+			core.InspectNoLit(f.Body, func(x ast.Node) bool {
+				switch s := x.(type) {
+				case *ast.AssignStmt:
+					for k, l := range s.Lhs {
+						if identObj(info, l) != o {
+							continue
+						}
+						if len(s.Rhs) != len(s.Lhs) {
+							clean = false
+							continue
+						}
+						v, isC := constBool(info, s.Rhs[k])
+						if !isC || (s.Tok == token.ASSIGN && !v) || (s.Tok == token.DEFINE && v) {
+							clean = false
+						}
+					}
+				case *ast.UnaryExpr:
+					if s.Op == token.AND && identObj(info, s.X) == o {
+						clean = false
+					}
+				}
+				return true
+			})
+			if clean {
+				out = append(out, o)
+			}
+		}
+		return out
+	}
+	reachesInc := func(from c21Inc, to []core.Point) ([]string, bool) {
+		flags := setTrueFlags(from.hit.P.B)
+		flagFalse := func(e ast.Expr) (bool, bool) {
+			for _, o := range flags {
+				if identObj(info, e) == o {
+					return false, true
+				}
+			}
+			return false, false
+		}
+		p := from.hit.P
+		return hbUnguardedPath(g, &p, to, flagFalse)
+	}
+	var twiceTrail []string
+	twice := false
+	for _, a := range incs {
+		if tr, found := reachesInc(a, incPts); found {
+			twice, twiceTrail = true, tr
+			break
 		}
 	}
-	c.Verdict(worst.Max <= 1 && len(incs) > 0, "C21-R1", bucketsObserve+"|a at most one", pos(c, f.Decl), "at most one bucket per observation", fmt.Sprintf("a path through Observe increments bucket counters %s times (or there is no increment at all: %d sites)", worst.String(), len(incs)))
+	c.Verdict(!twice && len(incs) > 0, "C21-R1", bucketsObserve+"|a at most one", pos(c, f.Decl), "at most one bucket per observation", fmt.Sprintf("a path through Observe increments bucket counters more than once (or there is no increment at all: %d sites)", len(incs)), twiceTrail...)
+	undecidedShape := false
+	// scanCheck examines a point inside the scan loop: is it reachable within an iteration only
+	// over an edge implying `v <= element.Range.Max` or `last index`, and is the loop left after it?
+	scanCheck := func(loop *hbLoop, target core.Point) (cfgOK, unselected, strictSeen, again bool, trail []string) {
+		head, body, _ := loopBlocks(g, loop.Stmt)
+		if head == nil || body == nil {
+			return false, false, false, false, nil
+		}
+		isMax := func(e ast.Expr) bool { // <element>.Range.Max
+			fv, b1 := hbFieldOf(info, e)
+			if fv == nil || fv.Name() != "Max" {
+				return false
+			}
+			fr, b2 := hbFieldOf(info, b1)
+			return fr != nil && fr.Name() == "Range" && loop.IsElem(f, b2)
+		}
+		selected := func(e ast.Expr) (bool, bool) {
+			if hbIsLastIndexTest(f, e, loop.Key, isList) {
+				return true, false
+			}
+			be, ok := core.Unparen(e).(*ast.BinaryExpr)
+			if !ok {
+				return false, false
+			}
+			vx, vy := identObj(info, be.X) == vObj, identObj(info, be.Y) == vObj
+			switch {
+			case (be.Op == token.LEQ && vx && isMax(be.Y)) || (be.Op == token.GEQ && vy && isMax(be.X)):
+				return true, false
+			case (be.Op == token.LSS && vx && isMax(be.Y)) || (be.Op == token.GTR && vy && isMax(be.X)):
+				strictSeen = true
+			}
+			return false, false
+		}
+		edges := hbEdges(g, selected)
+		tr, un := g.Search(core.Query{From: &core.Point{B: body, I: -1}, Goal: core.At(target),
+			AvoidEdge: func(b *cfg.Block, si int) bool { return b.Succs[si] == head || hbAvoid(edges)(b, si) }})
+		from := target
+		_, ag := g.Search(core.Query{From: &from, Goal: func(p core.Point) bool { return p.B == head && p.I == 0 }})
+		return true, un, strictSeen, ag, g.Trail(tr)
+	}
 	catchAll := false
 	for i, inc := range incs {
 		key := fmt.Sprintf("%s|b increment#%d", bucketsObserve, i+1)
-		// enclosing range loop over recv.Buckets?
-		var loop *ast.RangeStmt
-		for _, rs := range rangeStmts(f) {
-			if rs.Pos() <= inc.N.Pos() && inc.N.End() <= rs.End() && core.PathOf(rs.X) == recv+".Buckets" {
-				loop = rs
-			}
+		n := inc.hit.N
+		loop := hbEnclosingLoop(f, n.Pos())
+		if loop != nil && !isList(loop.Coll) {
+			loop = nil
 		}
-		var guard *ast.IfStmt
-		for _, ic := range f.EnclosingIfs(inc.N.Pos()) {
-			if ic.InThen && (loop == nil || ic.If.Pos() > loop.Pos()) {
-				guard = ic.If // innermost wins
-			}
+		if inc.isCopy {
+			c.Fail("C21-R1", key, pos(c, n), "the increment is applied to a by-value copy of the bucket ("+exprStr(inc.elem)+"), not to the datum's bucket: no bucket count ever changes")
+			continue
 		}
-		idx := incIndex(inc.N)
 		if loop != nil {
-			if guard == nil {
-				c.Fail("C21-R1", key, pos(c, inc.N), "a bucket is incremented for every element scanned, not for the first bound that is at least the value")
+			head, body, done := loopBlocks(g, loop.Stmt)
+			cfgOK, unselected, strictSeen, again, tr := scanCheck(loop, inc.hit.P)
+			if !cfgOK {
+				c.Undecided("C21-R1", key, pos(c, n), "scan loop not found in the CFG")
 				continue
 			}
-			okSel, why, hasLast := firstMatchGuard(f, guard.Cond, vObj, loop, recv)
-			if hasLast {
+			isLast := func(e ast.Expr) bool { return hbIsLastIndexTest(f, e, loop.Key, isList) }
+			sameIdx := loop.IsElem(f, inc.elem)
+			switch {
+			case unselected && strictSeen:
+				c.Fail("C21-R1", key, pos(c, n), "the bucket is not selected by `value <= upper bound` (inclusive): the comparison with the upper bound is strict: a value equal to a boundary falls into the next bucket", tr...)
+			case unselected:
+				c.Fail("C21-R1", key, pos(c, n), "the bucket is not selected by `value <= upper bound` (inclusive): within an iteration the increment can be reached without `v <= element.Range.Max` (or `last index`) having held", tr...)
+			case !sameIdx:
+				c.Fail("C21-R1", key, pos(c, n), "the bucket incremented is not the one whose bound was tested")
+			case again:
+				c.Fail("C21-R1", key, pos(c, n), "the scan continues after a bucket was incremented: later buckets are incremented too")
+			default:
+				c.Ok("C21-R1", key, pos(c, n), "first-match scan, inclusive upper bound, leaves the loop")
+			}
+			// catch-all inside the loop: in the last iteration (edges implying "not last" are
+			// infeasible) every way through the body passes an increment
+			notLast := func(e ast.Expr) (bool, bool) {
+				if isLast(e) {
+					return false, true
+				}
+				return false, false
+			}
+			nl := hbEdges(g, notLast)
+			goals := core.ExitPoints(normalExits(g))
+			_, escapes := g.Search(core.Query{From: &core.Point{B: body, I: -1},
+				Goal:      core.Or(core.At(goals...), func(p core.Point) bool { return (p.B == head || (done != nil && p.B == done)) && p.I == 0 }),
+				Avoid:     core.At(incPts...),
+				AvoidEdge: hbAvoid(nl)})
+			if !escapes && len(nl) > 0 {
 				catchAll = true
 			}
-			sameIdx := idx != nil && identObj(f.Info(), idx) != nil && identObj(f.Info(), idx) == identObj(f.Info(), loop.Key)
-			// must leave the loop after the increment
-			head, _, _ := loopBlocks(g, loop)
-			from := inc.P
-			_, again := g.Search(core.Query{From: &from, Goal: func(p core.Point) bool { return p.B == head && p.I == 0 }})
-			switch {
-			case !okSel:
-				c.Fail("C21-R1", key, pos(c, inc.N), "the bucket is not selected by `value <= upper bound` (inclusive): "+why)
-			case !sameIdx:
-				c.Fail("C21-R1", key, pos(c, inc.N), "the bucket incremented is not the one whose bound was tested")
-			case again:
-				c.Fail("C21-R1", key, pos(c, inc.N), "the scan continues after a bucket was incremented: later buckets are incremented too")
-			default:
-				c.Ok("C21-R1", key, pos(c, inc.N), "first-match scan, inclusive upper bound, leaves the loop")
-			}
-			// scan must start at the first element: `for i, b := range d.Buckets` always does
 			continue
 		}
 		// outside the scan loop
-		if idx != nil && strings.ReplaceAll(exprStr(idx), " ", "") == "len("+recv+".Buckets)-1" {
+		if inc.idx != nil && inc.list != nil && isList(inc.list) && hbIsLenMinus1(f, inc.idx, isList) {
 			// fallback on the last bucket: must be unreachable when the scan matched
 			catchAll = true
 			bad := false
@@ -117,49 +339,64 @@ func c21(c *core.Check) {
 				if j == i {
 					continue
 				}
-				from := other.P
-				if _, found := pathAvoiding(g, &from, []core.Point{inc.P}, nil); found {
+				if _, found := reachesInc(other, []core.Point{inc.hit.P}); found {
 					bad = true
 				}
 			}
-			c.Verdict(!bad, "C21-R1", key, pos(c, inc.N), "catch-all on the last bucket", "the catch-all increment can run after a bucket was already incremented")
+			c.Verdict(!bad, "C21-R1", key, pos(c, n), "catch-all on the last bucket", "the catch-all increment can run after a bucket was already incremented")
 			continue
+		}
+		if ok, why, decided := c21IndexVariable(c, f, g, inc, isList, scanCheck); decided {
+			if ok {
+				catchAll = true
+				c.Ok("C21-R1", key, pos(c, n), "index computed by the first-match scan with the last bucket as default, then one increment")
+			} else {
+				c.Fail("C21-R1", key, pos(c, n), why)
+			}
+			continue
+		}
+		var guard *ast.IfStmt
+		for _, ic := range f.EnclosingIfs(n.Pos()) {
+			if ic.InThen {
+				guard = ic.If // innermost wins
+			}
 		}
 		if guard != nil {
 			switch rangeGuard(f, guard.Cond, vObj) {
 			case "ok":
-				c.Ok("C21-R1", key, pos(c, inc.N), "selected by (Min, Max] membership")
+				c.Ok("C21-R1", key, pos(c, n), "selected by (Min, Max] membership")
 			case "closed-lower":
-				c.Fail("C21-R1", key, pos(c, inc.N), "the bucket is selected by a range test that includes the lower edge: a value equal to a boundary is counted in the bucket above it, not in the first bucket whose upper bound is at least the value")
+				c.Fail("C21-R1", key, pos(c, n), "the bucket is selected by a range test that includes the lower edge: a value equal to a boundary is counted in the bucket above it, not in the first bucket whose upper bound is at least the value")
 			default:
-				c.Undecided("C21-R1", key, pos(c, inc.N), "bucket increment outside the first-match scan with an unrecognised guard: "+exprStr(guard.Cond))
+				undecidedShape = true
+				c.Undecided("C21-R1", key, pos(c, n), "bucket increment outside the first-match scan with an unrecognised guard: "+exprStr(guard.Cond))
 			}
 			continue
 		}
-		c.Undecided("C21-R1", key, pos(c, inc.N), "unconditional bucket increment outside the first-match scan")
+		undecidedShape = true
+		c.Undecided("C21-R1", key, pos(c, n), "unconditional bucket increment outside the first-match scan")
 	}
-	c.Verdict(catchAll, "C21-R1", bucketsObserve+"|c catch-all", pos(c, f.Decl), "values matched by no bound go to the last bucket", "an observation that satisfies no `value <= bound` test (NaN: every comparison is false) increments no bucket while count and sum advance: bucket counts no longer sum to the count")
+	if !catchAll && undecidedShape {
+		c.Undecided("C21-R1", bucketsObserve+"|c catch-all", pos(c, f.Decl), "a bucket increment has a shape outside the recognised family (see above); whether it catches values matched by no bound is not decided")
+	} else {
+		c.Verdict(catchAll, "C21-R1", bucketsObserve+"|c catch-all", pos(c, f.Decl), "values matched by no bound go to the last bucket", "an observation that satisfies no `value <= bound` test (NaN: every comparison is false) increments no bucket while count and sum advance: bucket counts no longer sum to the count")
+	}
 	c.Floor("C21-R1", 3)
 
-	c.Rule("C21-R2", "COUNT-SUM: d.Count++ and d.Sum += v occur exactly once on every path through Observe, with the datum's write lock held")
+	c.Rule("C21-R2", "COUNT-SUM: the datum's Count is incremented by one and its Sum is increased by the observed value exactly once on every path through Observe, with the datum's write lock held")
 	hold := g.MustHold()
-	for _, ev := range []struct{ name, field string }{{"Count", recv + ".Count"}, {"Sum", recv + ".Sum"}} {
+	onRecv := func(e ast.Expr, field string) bool {
+		fv, base := hbFieldOf(info, e)
+		return fv != nil && fv.Name() == field && identObj(info, base) == recv
+	}
+	for _, ev := range []string{"Count", "Sum"} {
 		hits := g.Find(func(n ast.Node) bool {
-			switch s := n.(type) {
-			case *ast.IncDecStmt:
-				return core.PathOf(s.X) == ev.field && s.Tok == token.INC
-			case *ast.AssignStmt:
-				if len(s.Lhs) != 1 || core.PathOf(s.Lhs[0]) != ev.field {
-					return false
-				}
-				if ev.name == "Sum" {
-					return s.Tok == token.ADD_ASSIGN && identObj(f.Info(), s.Rhs[0]) == vObj
-				}
-				if v, ok := constInt(f.Info(), s.Rhs[0]); ok && v == 1 && s.Tok == token.ADD_ASSIGN {
-					return true
-				}
+			if ev == "Count" {
+				t := c21IncTarget(info, n)
+				return t != nil && onRecv(t, "Count")
 			}
-			return false
+			t, add := c21AddTarget(info, n)
+			return t != nil && onRecv(t, "Sum") && identObj(info, add) == vObj
 		})
 		cc := g.Count(nil, core.HitPoints(hits), nil)
 		okAll := len(hits) > 0
@@ -172,180 +409,304 @@ func c21(c *core.Check) {
 			}
 		}
 		for _, h := range hits {
-			if !core.Holds(hold.At(h.P), recv, "W") {
+			if !core.Holds(hold.At(h.P), recv.Name(), "W") {
 				okAll = false
 			}
 		}
-		c.Verdict(okAll, "C21-R2", bucketsObserve+"|"+ev.name, pos(c, f.Decl), "exactly once, under the lock", fmt.Sprintf("%s is updated %s times on some path through Observe, or not with the observed value / not under the datum's lock", ev.name, got.String()))
+		c.Verdict(okAll, "C21-R2", bucketsObserve+"|"+ev, pos(c, f.Decl), "exactly once, under the lock", fmt.Sprintf("%s is updated %s times on some path through Observe, or not with the observed value / not under the datum's lock", ev, got.String()))
 	}
 	c.Floor("C21-R2", 2)
+}
 
-	// R3/R4 codegen
+func c21Codegen(c *core.Check) {
 	c.Rule("C21-R3", "BOUNDS: in the histogram clause of the code generator, on every non-error path the first declared boundary is stored as an upper bound, each later boundary is stored exactly once per loop iteration as Range{previous, this} with previous updated, and exactly one Range{last, +Inf} follows the loop")
-	c.Rule("C21-R4", "SORTED: in the boundary loop the `max <= min` rejection dominates the append and its branch returns")
-	if cg := c.MustFn("C21-R3", codegenBefore); cg != nil {
-		cgG := cg.Graph()
-		histIfs := ifsWhere(cg, func(is *ast.IfStmt) bool {
-			return strings.ReplaceAll(exprStr(is.Cond), " ", "") == "n.Kind==metrics.Histogram"
-		})
-		if len(histIfs) != 1 {
-			c.Undecided("C21-R3", codegenBefore+"|histogram clause", pos(c, cg.Decl), fmt.Sprintf("expected one `if n.Kind == metrics.Histogram`, found %d", len(histIfs)))
-		} else {
-			hi := histIfs[0]
-			type app struct {
-				h      core.Hit
-				lo, hi ast.Expr
-			}
-			var apps []app
-			for _, h := range inside(cgG.Find(func(n ast.Node) bool {
-				as, ok := n.(*ast.AssignStmt)
-				if !ok || len(as.Lhs) != 1 || core.PathOf(as.Lhs[0]) != "m.Buckets" {
-					return false
-				}
-				call, ok := core.Unparen(as.Rhs[0]).(*ast.CallExpr)
-				return ok && cg.CalleeID(call) == "builtin.append"
-			}), hi) {
-				call := core.Unparen(h.N.(*ast.AssignStmt).Rhs[0]).(*ast.CallExpr)
-				if len(call.Args) != 2 {
-					continue
-				}
-				lit, ok := core.Unparen(call.Args[1]).(*ast.CompositeLit)
-				if !ok || len(lit.Elts) != 2 {
-					continue
-				}
-				lo, hiE := lit.Elts[0], lit.Elts[1]
-				if kv, ok := lo.(*ast.KeyValueExpr); ok {
-					lo = kv.Value
-				}
-				if kv, ok := hiE.(*ast.KeyValueExpr); ok {
-					hiE = kv.Value
-				}
-				apps = append(apps, app{h, lo, hiE})
-			}
-			var loop *ast.RangeStmt
-			for _, rs := range rangeStmts(cg) {
-				if rs.Pos() > hi.Pos() && rs.End() < hi.End() && strings.HasPrefix(strings.ReplaceAll(exprStr(rs.X), " ", ""), "n.Buckets[") {
-					loop = rs
-				}
-			}
-			if loop == nil {
-				c.Undecided("C21-R3", codegenBefore+"|boundary loop", pos(c, hi), "loop over n.Buckets[1:] not found")
-			} else {
-				okStart := strings.ReplaceAll(exprStr(loop.X), " ", "") == "n.Buckets[1:]"
-				c.Verdict(okStart, "C21-R3", codegenBefore+"|loop range", pos(c, loop), "loop covers every boundary after the first", "the boundary loop does not range over n.Buckets[1:]: declared boundaries are skipped or repeated")
-				var first, inLoop, inf []app
-				for _, a := range apps {
-					switch {
-					case a.h.N.Pos() > loop.Pos() && a.h.N.End() < loop.End():
-						inLoop = append(inLoop, a)
-					case strings.Contains(exprStr(a.hi), "math.Inf"):
-						inf = append(inf, a)
-					default:
-						first = append(first, a)
-					}
-				}
-				// first boundary exported on every path reaching the loop
-				var firstPts []core.Point
-				for _, a := range first {
-					if strings.ReplaceAll(exprStr(a.hi), " ", "") == "n.Buckets[0]" {
-						firstPts = append(firstPts, a.h.P)
-					}
-				}
-				head, body, _ := loopBlocks(cgG, loop)
-				if start, ok := branchStart(cgG, hi, true); ok && head != nil {
-					tr, found := cgG.Search(core.Query{From: start, Goal: func(p core.Point) bool { return p.B == head }, Avoid: core.At(firstPts...)})
-					c.Verdict(!found, "C21-R3", codegenBefore+"|first boundary exported", pos(c, hi), "n.Buckets[0] always becomes an upper bound",
-						"the first declared boundary becomes an exported upper bound only on some paths (when it is > 0): with `buckets 0, 1, 2` or a negative first boundary the bound is not exported and values at or below it are counted under the next one", cgG.Trail(tr)...)
-				}
-				// in loop: exactly one append per iteration on the non-error paths, Range{min,max}, min = max
-				if len(inLoop) != 1 {
-					c.Fail("C21-R3", codegenBefore+"|loop append", pos(c, loop), fmt.Sprintf("expected one append in the boundary loop, found %d", len(inLoop)))
-				} else {
-					a := inLoop[0]
-					minObj := identObj(cg.Info(), a.lo)
-					okPair := identObj(cg.Info(), a.hi) != nil && identObj(cg.Info(), a.hi) == identObj(cg.Info(), loop.Value) && minObj != nil
-					// min = max after the append in the same iteration
-					upd := cgG.Find(func(n ast.Node) bool {
-						as, ok := n.(*ast.AssignStmt)
-						return ok && len(as.Lhs) == 1 && identObj(cg.Info(), as.Lhs[0]) == minObj && minObj != nil && as.Tok == token.ASSIGN && identObj(cg.Info(), as.Rhs[0]) == identObj(cg.Info(), loop.Value) && as.Pos() > loop.Pos() && as.End() < loop.End()
-					})
-					from := a.h.P
-					_, skipUpd := cgG.Search(core.Query{From: &from, Goal: func(p core.Point) bool { return p.B == head && p.I == 0 }, Avoid: core.At(core.HitPoints(upd)...)})
-					cnt, okc := iterationCount(cgG, loop, []core.Point{a.h.P})
-					c.Verdict(okPair && !skipUpd && okc && cnt.Min == 1 && cnt.Max == 1, "C21-R3", codegenBefore+"|loop append", pos(c, a.h.N), "Range{previous, boundary} once per boundary, previous advanced",
-						fmt.Sprintf("the loop does not store Range{previous, boundary} exactly once per declared boundary and advance `previous` (pair ok=%v, previous advanced=%v, appends per iteration=%s)", okPair, !skipUpd, cnt.String()))
-					// the initial value of min is n.Buckets[0]
-					okInit := false
-					core.InspectNoLit(hi.Body, func(n ast.Node) bool {
-						if as, ok := n.(*ast.AssignStmt); ok && as.Tok == token.DEFINE && len(as.Lhs) == 1 && identObj(cg.Info(), as.Lhs[0]) == minObj {
-							okInit = strings.ReplaceAll(exprStr(as.Rhs[0]), " ", "") == "n.Buckets[0]"
-						}
-						return true
-					})
-					c.Verdict(okInit, "C21-R3", codegenBefore+"|previous starts at first boundary", pos(c, loop), "previous = n.Buckets[0]", "the lower edge of the second bucket does not start at the first declared boundary")
-					// R4
-					var srt []*ast.IfStmt
-					for _, is := range ifsWhere(cg, func(is *ast.IfStmt) bool { return is.Pos() > loop.Pos() && is.End() < loop.End() }) {
-						cond := strings.ReplaceAll(exprStr(is.Cond), " ", "")
-						mx, mn := exprStr(loop.Value), minObj.Name()
-						if cond == mx+"<="+mn || cond == mn+">="+mx {
-							srt = append(srt, is)
-						}
-					}
-					if len(srt) == 0 {
-						c.Fail("C21-R4", codegenBefore+"|sortedness test", pos(c, loop), "no `boundary <= previous` rejection in the boundary loop (weakened to `<` admits duplicate boundaries; removed admits unsorted lists): buckets overlap or are empty and first-match counting is wrong")
-					} else {
-						var conds []core.Point
-						bad := false
-						for _, is := range srt {
-							if p, ok := cgG.PointOf(is.Cond); ok {
-								conds = append(conds, p)
-							}
-							if start, ok := branchStart(cgG, is, true); ok {
-								if _, found := pathAvoiding(cgG, start, []core.Point{a.h.P}, nil); found {
-									bad = true
-								}
-								_ = start
-							}
-						}
-						if body != nil {
-							if _, found := pathAvoiding(cgG, &core.Point{B: body, I: -1}, []core.Point{a.h.P}, conds); found {
-								bad = true
-							}
-						}
-						c.Verdict(!bad, "C21-R4", codegenBefore+"|sortedness test", pos(c, srt[0]), "rejection dominates the append and does not fall through", "an unsorted or duplicate boundary can still be stored")
-					}
-				}
-				// +Inf exactly once after the loop
-				okInf := len(inf) == 1 && inf[0].h.N.Pos() > loop.End()
-				if okInf {
-					a := inf[0]
-					okInf = strings.ReplaceAll(exprStr(a.hi), " ", "") == "math.Inf(+1)" || strings.ReplaceAll(exprStr(a.hi), " ", "") == "math.Inf(1)"
-					_, _, done := loopBlocks(cgG, loop)
-					if done != nil {
-						// every path from loop done to the end of the clause passes it… approximate: to any exit without error
-						cc := cgG.Count(&core.Point{B: done, I: -1}, []core.Point{a.h.P}, nil)
-						for _, e := range successExits(cgG, cg) {
-							if n, ok := cc.At(e.P); ok && (n.Min != 1 || n.Max != 1) {
-								// exits that are error returns (return nil, n after errorf) are excluded by successExits only if they return nil error; codegen returns (nil, n): treat returns inside `if err != nil`/errorf blocks as errors
-								if !afterErrorf(cg, e) {
-									okInf = false
-								}
-							}
-						}
-					}
-				}
-				c.Verdict(okInf, "C21-R3", codegenBefore+"|+Inf bucket", pos(c, hi), "exactly one Range{last, +Inf} after the loop", "the +Inf bucket is not appended exactly once after the declared boundaries")
-			}
+	c.Rule("C21-R4", "SORTED: in the boundary loop the append of Range{previous, boundary} is reachable within an iteration only over a branch edge implying `boundary > previous` (strict)")
+	defer func() {
+		c.Floor("C21-R3", 5)
+		c.Floor("C21-R4", 1)
+	}()
+	cg := c.MustFn("C21-R3", codegenBefore)
+	if cg == nil {
+		return
+	}
+	cgG := cg.Graph()
+	info := cg.Info()
+	isHistConst := func(e ast.Expr) bool {
+		k, ok := usedObj(info, e).(*types.Const)
+		return ok && k.Name() == "Histogram" && k.Pkg() != nil && core.Rel(k.Pkg().Path()) == "internal/metrics"
+	}
+	isKind := func(e ast.Expr) bool {
+		fv, _ := hbFieldOf(info, e)
+		return fv != nil && fv.Name() == "Kind"
+	}
+	histIfs := ifsWhere(cg, func(is *ast.IfStmt) bool {
+		be, ok := core.Unparen(is.Cond).(*ast.BinaryExpr)
+		return ok && be.Op == token.EQL && ((isKind(be.X) && isHistConst(be.Y)) || (isKind(be.Y) && isHistConst(be.X)))
+	})
+	// the clause is `if <decl>.Kind == metrics.Histogram { … }` or `case metrics.Histogram:` of a switch on <decl>.Kind
+	type region struct {
+		node  ast.Node // lexical extent of the clause
+		where ast.Node // for positions
+		start *core.Point
+	}
+	var regions []region
+	for _, is := range histIfs {
+		if st, ok := branchStart(cgG, is, true); ok {
+			regions = append(regions, region{is.Body, is, st})
 		}
 	}
-	c.Floor("C21-R3", 5)
-	c.Floor("C21-R4", 1)
+	core.InspectNoLit(cg.Body, func(n ast.Node) bool {
+		sw, ok := n.(*ast.SwitchStmt)
+		if !ok || sw.Tag == nil || !isKind(sw.Tag) {
+			return true
+		}
+		for _, cl := range sw.Body.List {
+			cc := cl.(*ast.CaseClause)
+			for _, e := range cc.List {
+				if !isHistConst(e) {
+					continue
+				}
+				for _, b := range cgG.C.Blocks {
+					if b.Live && b.Kind == cfg.KindSwitchCaseBody && b.Stmt == ast.Stmt(cc) {
+						regions = append(regions, region{cc, cc, &core.Point{B: b, I: -1}})
+					}
+				}
+			}
+		}
+		return true
+	})
+	if len(regions) != 1 {
+		c.Undecided("C21-R3", codegenBefore+"|histogram clause", pos(c, cg.Decl), fmt.Sprintf("expected one `if <decl>.Kind == metrics.Histogram` (or `case metrics.Histogram`), found %d", len(regions)))
+		return
+	}
+	hi := regions[0]
+	within := func(n, outer ast.Node) bool { return outer.Pos() <= n.Pos() && n.End() <= outer.End() }
+	// the declared boundaries: a field of type []float64 named Buckets
+	isDecl := func(e ast.Expr) bool {
+		fv, _ := hbFieldOf(info, hbResolve(cg, e))
+		if fv == nil || fv.Name() != "Buckets" {
+			return false
+		}
+		sl, ok := fv.Type().Underlying().(*types.Slice)
+		if !ok {
+			return false
+		}
+		b, ok := sl.Elem().(*types.Basic)
+		return ok && b.Kind() == types.Float64
+	}
+	isDeclAt := func(e ast.Expr, k int64) bool {
+		ix, ok := hbResolve(cg, e).(*ast.IndexExpr)
+		if !ok || !isDecl(ix.X) {
+			return false
+		}
+		v, isC := constInt(info, ix.Index)
+		return isC && v == k
+	}
+	isInf := func(e ast.Expr) bool {
+		call, ok := hbResolve(cg, e).(*ast.CallExpr)
+		if !ok || cg.CalleeID(call) != "math.Inf" || len(call.Args) != 1 {
+			return false
+		}
+		v, isC := constInt(info, call.Args[0])
+		return isC && v > 0
+	}
+	type app struct {
+		h      core.Hit
+		lo, hi ast.Expr
+	}
+	var apps []app
+	for _, h := range inside(cgG.Find(func(n ast.Node) bool {
+		as, ok := n.(*ast.AssignStmt)
+		if !ok || len(as.Lhs) != 1 || len(as.Rhs) != 1 {
+			return false
+		}
+		fv, _ := hbFieldOf(info, as.Lhs[0])
+		if fv == nil {
+			return false
+		}
+		sl, ok := fv.Type().Underlying().(*types.Slice)
+		if !ok || !c21Named(sl.Elem(), "internal/metrics/datum", "Range") {
+			return false
+		}
+		call, ok := core.Unparen(as.Rhs[0]).(*ast.CallExpr)
+		return ok && cg.CalleeID(call) == "builtin.append" && len(call.Args) == 2 && hbSameExpr(info, call.Args[0], as.Lhs[0])
+	}), hi.node) {
+		call := core.Unparen(h.N.(*ast.AssignStmt).Rhs[0]).(*ast.CallExpr)
+		lit, ok := hbResolve(cg, call.Args[1]).(*ast.CompositeLit)
+		if !ok || len(lit.Elts) != 2 {
+			continue
+		}
+		var lo, hiE ast.Expr
+		for k, el := range lit.Elts {
+			if kv, ok := el.(*ast.KeyValueExpr); ok {
+				switch exprStr(kv.Key) { // field names of datum.Range
+				case "Min":
+					lo = kv.Value
+				case "Max":
+					hiE = kv.Value
+				}
+			} else if k == 0 {
+				lo = el
+			} else {
+				hiE = el
+			}
+		}
+		if lo == nil || hiE == nil {
+			continue
+		}
+		apps = append(apps, app{h, lo, hiE})
+	}
+	var loop *ast.RangeStmt
+	for _, rs := range rangeStmts(cg) {
+		if !within(rs, hi.node) {
+			continue
+		}
+		if se, ok := hbResolve(cg, rs.X).(*ast.SliceExpr); ok && isDecl(se.X) {
+			loop = rs
+		}
+	}
+	if loop == nil {
+		c.Undecided("C21-R3", codegenBefore+"|boundary loop", pos(c, hi.where), "range loop over <decl>.Buckets[1:] not found")
+		return
+	}
+	se := hbResolve(cg, loop.X).(*ast.SliceExpr)
+	lowOne := false
+	if se.Low != nil {
+		v, isC := constInt(info, se.Low)
+		lowOne = isC && v == 1
+	}
+	c.Verdict(lowOne && se.High == nil && se.Max == nil, "C21-R3", codegenBefore+"|loop range", pos(c, loop), "loop covers every boundary after the first", "the boundary loop does not range over <decl>.Buckets[1:]: declared boundaries are skipped or repeated")
+	maxObj := identObj(info, loop.Value)
+	var first, inLoop, inf []app
+	for _, a := range apps {
+		switch {
+		case within(a.h.N, loop):
+			inLoop = append(inLoop, a)
+		case isInf(a.hi):
+			inf = append(inf, a)
+		default:
+			first = append(first, a)
+		}
+	}
+	// first boundary exported on every path reaching the loop
+	var firstPts []core.Point
+	for _, a := range first {
+		if isDeclAt(a.hi, 0) {
+			firstPts = append(firstPts, a.h.P)
+		}
+	}
+	head, body, done := loopBlocks(cgG, loop)
+	if start := hi.start; head != nil {
+		tr, found := cgG.Search(core.Query{From: start, Goal: func(p core.Point) bool { return p.B == head }, Avoid: core.At(firstPts...)})
+		c.Verdict(!found, "C21-R3", codegenBefore+"|first boundary exported", pos(c, hi.where), "the first declared boundary always becomes an upper bound",
+			"the first declared boundary becomes an exported upper bound only on some paths (when it is > 0): with `buckets 0, 1, 2` or a negative first boundary the bound is not exported and values at or below it are counted under the next one", cgG.Trail(tr)...)
+	}
+	if len(inLoop) != 1 || maxObj == nil {
+		c.Fail("C21-R3", codegenBefore+"|loop append", pos(c, loop), fmt.Sprintf("expected one append of a Range in the boundary loop (with a value variable), found %d", len(inLoop)))
+	} else {
+		a := inLoop[0]
+		minObj := identObj(info, a.lo)
+		okPair := identObj(info, a.hi) == maxObj && minObj != nil
+		upd := cgG.Find(func(n ast.Node) bool {
+			as, ok := n.(*ast.AssignStmt)
+			return ok && len(as.Lhs) == 1 && len(as.Rhs) == 1 && minObj != nil && identObj(info, as.Lhs[0]) == minObj && as.Tok == token.ASSIGN && identObj(info, as.Rhs[0]) == maxObj && within(as, loop)
+		})
+		from := a.h.P
+		_, skipUpd := cgG.Search(core.Query{From: &from, Goal: func(p core.Point) bool { return p.B == head && p.I == 0 }, Avoid: core.At(core.HitPoints(upd)...)})
+		cnt, okc := iterationCount(cgG, loop, []core.Point{a.h.P})
+		c.Verdict(okPair && !skipUpd && okc && cnt.Min == 1 && cnt.Max == 1, "C21-R3", codegenBefore+"|loop append", pos(c, a.h.N), "Range{previous, boundary} once per boundary, previous advanced",
+			fmt.Sprintf("the loop does not store Range{previous, boundary} exactly once per declared boundary and advance `previous` (pair ok=%v, previous advanced=%v, appends per iteration=%s)", okPair, !skipUpd, cnt.String()))
+		// the initial value of previous is the first boundary
+		okInit := false
+		core.InspectNoLit(hi.node, func(n ast.Node) bool {
+			switch s := n.(type) {
+			case *ast.AssignStmt:
+				if s.Tok == token.DEFINE && len(s.Lhs) == len(s.Rhs) {
+					for k, l := range s.Lhs {
+						if minObj != nil && identObj(info, l) == minObj {
+							okInit = isDeclAt(s.Rhs[k], 0)
+						}
+					}
+				}
+			case *ast.ValueSpec:
+				for k, name := range s.Names {
+					if minObj != nil && info.Defs[name] == minObj && len(s.Values) == len(s.Names) {
+						okInit = isDeclAt(s.Values[k], 0)
+					}
+				}
+			}
+			return true
+		})
+		c.Verdict(okInit, "C21-R3", codegenBefore+"|previous starts at first boundary", pos(c, loop), "previous = first declared boundary", "the lower edge of the second bucket does not start at the first declared boundary")
+		// R4: append only where boundary > previous
+		cmpSeen := false
+		sorted := func(e ast.Expr) (bool, bool) {
+			be, ok := core.Unparen(e).(*ast.BinaryExpr)
+			if !ok || minObj == nil {
+				return false, false
+			}
+			x, y := identObj(info, be.X), identObj(info, be.Y)
+			op := be.Op
+			switch {
+			case x == maxObj && y == minObj:
+			case x == minObj && y == maxObj:
+				op = map[token.Token]token.Token{token.LSS: token.GTR, token.GTR: token.LSS, token.LEQ: token.GEQ, token.GEQ: token.LEQ}[op]
+			default:
+				return false, false
+			}
+			// normalised: boundary op previous
+			switch op {
+			case token.GTR:
+				cmpSeen = true
+				return true, false
+			case token.LEQ:
+				cmpSeen = true
+				return false, true
+			case token.GEQ, token.LSS:
+				cmpSeen = true
+			}
+			return false, false
+		}
+		if body == nil || head == nil {
+			c.Undecided("C21-R4", codegenBefore+"|sortedness test", pos(c, loop), "boundary loop not found in the CFG")
+		} else {
+			edges := hbEdges(cgG, sorted)
+			tr, unsorted := cgG.Search(core.Query{From: &core.Point{B: body, I: -1}, Goal: core.At(a.h.P),
+				AvoidEdge: func(b *cfg.Block, si int) bool { return b.Succs[si] == head || hbAvoid(edges)(b, si) }})
+			switch {
+			case !cmpSeen:
+				c.Fail("C21-R4", codegenBefore+"|sortedness test", pos(c, loop), "no `boundary <= previous` rejection in the boundary loop (weakened to `<` admits duplicate boundaries; removed admits unsorted lists): buckets overlap or are empty and first-match counting is wrong")
+			case unsorted:
+				c.Fail("C21-R4", codegenBefore+"|sortedness test", pos(c, a.h.N), "an unsorted or duplicate boundary can still be stored: the append is reachable without `boundary > previous` (strict) having held", cgG.Trail(tr)...)
+			default:
+				c.Ok("C21-R4", codegenBefore+"|sortedness test", pos(c, a.h.N), "rejection dominates the append and does not fall through")
+			}
+		}
+		// +Inf exactly once after the loop, from previous
+		okInf := len(inf) == 1 && inf[0].h.N.Pos() > loop.End()
+		if okInf {
+			ia := inf[0]
+			okInf = minObj != nil && identObj(info, ia.lo) == minObj
+			if done != nil {
+				cc := cgG.Count(&core.Point{B: done, I: -1}, []core.Point{ia.h.P}, nil)
+				for _, e := range successExits(cgG, cg) {
+					if n, ok := cc.At(e.P); ok && (n.Min != 1 || n.Max != 1) {
+						if !afterErrorf(cg, e) {
+							okInf = false
+						}
+					}
+				}
+			}
+		}
+		c.Verdict(okInf, "C21-R3", codegenBefore+"|+Inf bucket", pos(c, hi.where), "exactly one Range{last, +Inf} after the loop", "the +Inf bucket is not appended exactly once after the declared boundaries (or its lower edge is not the last declared boundary)")
+	}
+}
 
-	// R5
+func c21Own(c *core.Check) {
 	c.Rule("C21-R5", "OWN-COUNTERS: every assignment to the Buckets field of a datum.Buckets is `x.Buckets = append(x.Buckets, …)` on the same x (or a fresh make/literal): bucket counters are never a slice derived from another datum or a shared layout")
 	n5 := 0
 	for _, sf := range shipped(c) {
+		info := sf.Info()
 		core.InspectNoLit(sf.Body, func(n ast.Node) bool {
 			as, ok := n.(*ast.AssignStmt)
 			if !ok {
@@ -356,8 +717,8 @@ func c21(c *core.Check) {
 				if !ok || sel.Sel.Name != "Buckets" {
 					continue
 				}
-				s := sf.Info().Selections[sel]
-				if s == nil || s.Kind() != types.FieldVal || !strings.HasSuffix(s.Recv().String(), "datum.Buckets") {
+				s := info.Selections[sel]
+				if s == nil || s.Kind() != types.FieldVal || !c21Named(s.Recv(), "internal/metrics/datum", "Buckets") {
 					continue
 				}
 				n5++
@@ -371,7 +732,7 @@ func c21(c *core.Check) {
 				if call, ok := rhs.(*ast.CallExpr); ok {
 					switch sf.CalleeID(call) {
 					case "builtin.append":
-						okOwn = core.PathOf(call.Args[0]) == core.PathOf(l) && !call.Ellipsis.IsValid()
+						okOwn = len(call.Args) > 0 && hbSameExpr(info, call.Args[0], l) && !call.Ellipsis.IsValid()
 					case "builtin.make":
 						okOwn = true
 					}
@@ -389,7 +750,7 @@ func c21(c *core.Check) {
 			if !ok {
 				return true
 			}
-			if t := sf.Info().TypeOf(lit); t == nil || !strings.HasSuffix(t.String(), "datum.Buckets") {
+			if t := info.TypeOf(lit); t == nil || !c21Named(t, "internal/metrics/datum", "Buckets") {
 				return true
 			}
 			for _, el := range lit.Elts {
@@ -405,10 +766,12 @@ func c21(c *core.Check) {
 		})
 	}
 	c.Floor("C21-R5", 1)
+}
 
-	// R6
-	c.Rule("C21-R6", "EXPORT: NewConstHistogram receives GetBucketsCount, GetBucketsSum and GetBucketsCumByMax of one and the same datum expression; GetBucketsCumByMax sorts the upper bounds before accumulating and stores the running total for every bound")
+func c21Export(c *core.Check) {
+	c.Rule("C21-R6", "EXPORT: NewConstHistogram receives GetBucketsCount, GetBucketsSum and GetBucketsCumByMax (directly or through single-definition locals) of one and the same datum expression; GetBucketsCumByMax sorts the upper bounds before accumulating and stores the running total for every bound")
 	for _, sf := range shipped(c) {
+		info := sf.Info()
 		for _, h := range sf.Graph().Calls(func(id string, _ *ast.CallExpr) bool {
 			return strings.HasSuffix(id, "prometheus.NewConstHistogram") || strings.HasSuffix(id, "prometheus.MustNewConstHistogram")
 		}) {
@@ -416,33 +779,40 @@ func c21(c *core.Check) {
 			call := h.N.(*ast.CallExpr)
 			want := []string{"internal/metrics/datum.GetBucketsCount", "internal/metrics/datum.GetBucketsSum", "internal/metrics/datum.GetBucketsCumByMax"}
 			okArgs := len(call.Args) >= 4
-			var src string
+			var src ast.Expr
 			for i := 0; okArgs && i < 3; i++ {
-				ac, isC := core.Unparen(call.Args[i+1]).(*ast.CallExpr)
+				ac, isC := hbResolve(sf, call.Args[i+1]).(*ast.CallExpr)
 				if !isC || sf.CalleeID(ac) != want[i] || len(ac.Args) != 1 {
 					okArgs = false
 					break
 				}
+				a := hbResolve(sf, ac.Args[0])
 				if i == 0 {
-					src = exprStr(ac.Args[0])
-				} else if exprStr(ac.Args[0]) != src {
+					src = a
+				} else if !hbSameExpr(info, a, src) {
 					okArgs = false
 				}
 			}
-			okArgs = okArgs && strings.HasSuffix(src, ".Datum")
-			c.Verdict(okArgs, "C21-R6", sf.Key+"|NewConstHistogram", pos(c, call), "count, sum, buckets of "+src, "the histogram sample is not built from count, sum and cumulative buckets of one and the same label set's datum")
+			srcTxt := exprStr(src)
+			if okArgs {
+				fv, _ := hbFieldOf(info, src)
+				okArgs = fv != nil && fv.Name() == "Datum" && !hbHasCall(src)
+			}
+			c.Verdict(okArgs, "C21-R6", sf.Key+"|NewConstHistogram", pos(c, call), "count, sum, buckets of "+srcTxt, "the histogram sample is not built from count, sum and cumulative buckets of one and the same label set's datum")
 		}
 	}
 	if cf := c.MustFn("C21-R6", "internal/metrics/datum.GetBucketsCumByMax"); cf != nil {
 		cg := cf.Graph()
+		info := cf.Info()
 		sorts := cg.Calls(func(id string, _ *ast.CallExpr) bool { return id == "sort.Float64s" || id == "slices.Sort" })
+		// running total: `cum += e` / `cum = cum + e` on a local
 		accs := cg.Find(func(n ast.Node) bool {
-			as, ok := n.(*ast.AssignStmt)
-			return ok && as.Tok == token.ADD_ASSIGN && len(as.Lhs) == 1
+			t, _ := c21AddTarget(info, n)
+			return t != nil && identObj(info, t) != nil
 		})
 		stores := cg.Find(func(n ast.Node) bool {
 			as, ok := n.(*ast.AssignStmt)
-			if !ok || as.Tok != token.ASSIGN || len(as.Lhs) != 1 {
+			if !ok || as.Tok != token.ASSIGN || len(as.Lhs) != 1 || len(as.Rhs) != 1 {
 				return false
 			}
 			_, isIdx := core.Unparen(as.Lhs[0]).(*ast.IndexExpr)
@@ -450,18 +820,18 @@ func c21(c *core.Check) {
 		})
 		okShape := len(sorts) == 1 && len(accs) >= 1 && len(stores) >= 2
 		if okShape {
-			// the accumulation loop comes after the sort on every path
+			// the accumulation comes after the sort on every path
 			acc := accs[len(accs)-1]
 			if _, found := pathAvoiding(cg, nil, []core.Point{acc.P}, core.HitPoints(sorts)); found {
 				okShape = false
 			}
 			// running total stored in the same iteration
-			as := acc.N.(*ast.AssignStmt)
-			cum := identObj(cf.Info(), as.Lhs[0])
+			t, _ := c21AddTarget(info, acc.N)
+			cum := identObj(info, t)
 			stored := false
 			for _, s := range stores {
 				sa := s.N.(*ast.AssignStmt)
-				if identObj(cf.Info(), sa.Rhs[0]) == cum && cum != nil && sa.Pos() > as.Pos() {
+				if identObj(info, sa.Rhs[0]) == cum && cum != nil && sa.Pos() > acc.N.Pos() {
 					stored = true
 				}
 			}
@@ -472,65 +842,16 @@ func c21(c *core.Check) {
 	c.Floor("C21-R6", 2)
 }
 
-// incIndex returns the index expression of `X[i].Count++`.
-func incIndex(n ast.Node) ast.Expr {
-	var target ast.Expr
-	switch s := n.(type) {
-	case *ast.IncDecStmt:
-		target = s.X
-	case *ast.AssignStmt:
-		target = s.Lhs[0]
-	}
-	if sel, ok := core.Unparen(target).(*ast.SelectorExpr); ok {
-		if ix, ok := core.Unparen(sel.X).(*ast.IndexExpr); ok {
-			return ix.Index
-		}
-	}
-	return nil
-}
-
-// firstMatchGuard examines the guard of an increment inside the scan loop.
-// ok: some disjunct is `v <= elem.Range.Max` with elem the loop's current element;
-// hasLast: some disjunct is `i == len(recv.Buckets)-1`.
-func firstMatchGuard(f *core.Func, cond ast.Expr, v types.Object, loop *ast.RangeStmt, recv string) (ok bool, why string, hasLast bool) {
-	info := f.Info()
-	isElemMax := func(e ast.Expr) bool {
-		s := strings.ReplaceAll(exprStr(e), " ", "")
-		if loop.Value != nil && s == exprStr(loop.Value)+".Range.Max" {
-			return true
-		}
-		if loop.Key != nil && s == recv+".Buckets["+exprStr(loop.Key)+"].Range.Max" {
-			return true
-		}
-		return false
-	}
-	why = "guard is " + exprStr(cond)
-	for _, d := range chain(cond, token.LOR) {
-		be, isB := core.Unparen(d).(*ast.BinaryExpr)
-		if !isB {
-			return false, why, hasLast
-		}
-		switch {
-		case be.Op == token.LEQ && identObj(info, be.X) == v && isElemMax(be.Y),
-			be.Op == token.GEQ && identObj(info, be.Y) == v && isElemMax(be.X):
-			ok = true
-		case be.Op == token.EQL && loop.Key != nil && identObj(info, be.X) == identObj(info, loop.Key) && strings.ReplaceAll(exprStr(be.Y), " ", "") == "len("+recv+".Buckets)-1":
-			hasLast = true
-		case (be.Op == token.LSS && identObj(info, be.X) == v && isElemMax(be.Y)) || (be.Op == token.GTR && identObj(info, be.Y) == v && isElemMax(be.X)):
-			return false, "the comparison with the upper bound is strict: a value equal to a boundary falls into the next bucket", hasLast
-		default:
-			return false, why, hasLast
-		}
-	}
-	return ok, why, hasLast
-}
-
 // rangeGuard classifies a guard on a bucket outside the scan: "ok" for
 // Min < v && v <= Max (or Range.Contains(v)), "closed-lower" for v >= Min…, "" otherwise.
 func rangeGuard(f *core.Func, cond ast.Expr, v types.Object) string {
 	info := f.Info()
 	res := ""
 	lowerOK, lowerClosed, upperOK := false, false, false
+	isField := func(e ast.Expr, name string) bool {
+		fv, _ := hbFieldOf(info, e)
+		return fv != nil && fv.Name() == name
+	}
 	for _, cj := range chain(cond, token.LAND) {
 		cj = core.Unparen(cj)
 		if call, ok := cj.(*ast.CallExpr); ok && strings.HasSuffix(f.CalleeID(call), "datum.(*Range).Contains") && len(call.Args) == 1 && identObj(info, call.Args[0]) == v {
@@ -541,14 +862,13 @@ func rangeGuard(f *core.Func, cond ast.Expr, v types.Object) string {
 		if !ok {
 			continue
 		}
-		x, y := exprStr(be.X), exprStr(be.Y)
 		vx, vy := identObj(info, be.X) == v, identObj(info, be.Y) == v
 		switch {
-		case (vx && be.Op == token.GTR && strings.HasSuffix(y, ".Min")) || (vy && be.Op == token.LSS && strings.HasSuffix(x, ".Min")):
+		case (vx && be.Op == token.GTR && isField(be.Y, "Min")) || (vy && be.Op == token.LSS && isField(be.X, "Min")):
 			lowerOK = true
-		case (vx && be.Op == token.GEQ && strings.HasSuffix(y, ".Min")) || (vy && be.Op == token.LEQ && strings.HasSuffix(x, ".Min")):
+		case (vx && be.Op == token.GEQ && isField(be.Y, "Min")) || (vy && be.Op == token.LEQ && isField(be.X, "Min")):
 			lowerClosed = true
-		case (vx && be.Op == token.LEQ && strings.HasSuffix(y, ".Max")) || (vy && be.Op == token.GEQ && strings.HasSuffix(x, ".Max")):
+		case (vx && be.Op == token.LEQ && isField(be.Y, "Max")) || (vy && be.Op == token.GEQ && isField(be.X, "Max")):
 			upperOK = true
 		}
 	}
@@ -579,4 +899,129 @@ func afterErrorf(f *core.Func, e core.Exit) bool {
 		}
 	}
 	return false
+}
+
+// c21IndexVariable recognises the shape in which the scan only computes the
+// index: `x := len(L)-1; for i … { if v <= L[i].Range.Max { x = i; break } }; L[x].Count++`
+// (the increment possibly under a guard that holds for every x >= 0 / non-empty L).
+// decided is false when the increment does not have this shape.
+func c21IndexVariable(c *core.Check, f *core.Func, g *core.Graph, inc c21Inc, isList func(ast.Expr) bool,
+	scanCheck func(*hbLoop, core.Point) (bool, bool, bool, bool, []string)) (ok bool, why string, decided bool) {
+	info := f.Info()
+	if inc.idx == nil || inc.list == nil || !isList(inc.list) {
+		return false, "", false
+	}
+	x, isVar := identObj(info, inc.idx).(*types.Var)
+	if !isVar || x == nil {
+		return false, "", false
+	}
+	var defaults, inScan []core.Point
+	shape := true
+	for _, h := range g.Find(func(n ast.Node) bool {
+		switch s := n.(type) {
+		case *ast.AssignStmt:
+			for _, l := range s.Lhs {
+				if identObj(info, l) == types.Object(x) {
+					return true
+				}
+			}
+		case *ast.IncDecStmt:
+			return identObj(info, s.X) == types.Object(x)
+		}
+		return false
+	}) {
+		as, isAs := h.N.(*ast.AssignStmt)
+		if !isAs || len(as.Lhs) != len(as.Rhs) || (as.Tok != token.ASSIGN && as.Tok != token.DEFINE) {
+			shape = false
+			continue
+		}
+		for k, l := range as.Lhs {
+			if identObj(info, l) != types.Object(x) {
+				continue
+			}
+			r := as.Rhs[k]
+			if hbIsLenMinus1(f, r, isList) {
+				defaults = append(defaults, h.P)
+				continue
+			}
+			loop := hbEnclosingLoop(f, as.Pos())
+			if loop != nil && isList(loop.Coll) && identObj(info, r) == loop.Key {
+				cfgOK, unselected, strict, again, _ := scanCheck(loop, h.P)
+				switch {
+				case !cfgOK:
+					shape = false
+				case unselected && strict:
+					return false, "the bucket is not selected by `value <= upper bound` (inclusive): the comparison with the upper bound is strict: a value equal to a boundary falls into the next bucket", true
+				case unselected:
+					return false, "the bucket is not selected by `value <= upper bound` (inclusive): the index can be taken from an element without `v <= element.Range.Max` having held", true
+				case again:
+					return false, "the scan continues after the index was chosen: the last matching bucket is incremented, not the first", true
+				}
+				inScan = append(inScan, h.P)
+				continue
+			}
+			if cv, isC := constInt(info, r); isC && len(as.Lhs) == 1 {
+				return false, fmt.Sprintf("the index of the bucket to increment defaults to the constant %d, not to the last bucket: a value matched by no bound (above all bounds, NaN) is counted in the wrong bucket", cv), true
+			}
+			shape = false
+		}
+	}
+	if !shape || len(defaults) == 0 || len(inScan) == 0 {
+		return false, "", false
+	}
+	// the default is assigned on every path to the increment, before any scan assignment
+	if _, found := pathAvoiding(g, nil, append([]core.Point{inc.hit.P}, inScan...), defaults); found {
+		return false, "", false
+	}
+	// a branch on which reaching the increment depends must exclude no valid index: the edge
+	// that does not lead to the increment may only be taken when x < 0 / when L is empty
+	infeasible := func(e ast.Expr) (bool, bool) {
+		sample := func(cmp func(int64) bool, vals []int64) (bool, bool) {
+			all, none := true, true
+			for _, v := range vals {
+				if cmp(v) {
+					none = false
+				} else {
+					all = false
+				}
+			}
+			return none, all // (true edge impossible, false edge impossible) for valid values
+		}
+		if op, cv, ok := hbCmpConst(info, e, x); ok {
+			return sample(func(v int64) bool { return hbEvalCmp(v, op, cv) }, []int64{0, 1, 2, 3, 1 << 40})
+		}
+		if be, ok := core.Unparen(e).(*ast.BinaryExpr); ok { // len(L) op const
+			flip := map[token.Token]token.Token{token.LSS: token.GTR, token.GTR: token.LSS, token.LEQ: token.GEQ, token.GEQ: token.LEQ, token.EQL: token.EQL, token.NEQ: token.NEQ}
+			if _, cmp := flip[be.Op]; cmp {
+				if cv, isC := constInt(info, be.Y); isC && hbIsLenOf(f, be.X, isList) {
+					return sample(func(v int64) bool { return hbEvalCmp(v, be.Op, cv) }, []int64{1, 2, 3, 1 << 40})
+				}
+				if cv, isC := constInt(info, be.X); isC && hbIsLenOf(f, be.Y, isList) {
+					return sample(func(v int64) bool { return hbEvalCmp(v, flip[be.Op], cv) }, []int64{1, 2, 3, 1 << 40})
+				}
+			}
+		}
+		return false, false
+	}
+	lastScan := token.NoPos
+	for _, p := range inScan {
+		if lp := hbEnclosingLoop(f, p.Node().Pos()); lp != nil && lp.Stmt.End() > lastScan {
+			lastScan = lp.Stmt.End()
+		}
+	}
+	for _, s := range hbSites(g) {
+		if s.Cond.Pos() < lastScan || s.Cond.Pos() > inc.hit.N.Pos() {
+			continue
+		}
+		_, r0 := g.Search(core.Query{From: &core.Point{B: s.B.Succs[0], I: -1}, Goal: core.At(inc.hit.P)})
+		_, r1 := g.Search(core.Query{From: &core.Point{B: s.B.Succs[1], I: -1}, Goal: core.At(inc.hit.P)})
+		if r0 == r1 {
+			continue
+		}
+		t, fl := hbImplies(f, s.Cond, infeasible)
+		if (r0 && !fl) || (r1 && !t) {
+			return false, "", false // a guard that can reject a valid index: not this shape
+		}
+	}
+	return true, "", true
 }
